@@ -1,0 +1,27 @@
+//go:build verif
+
+// Package verifhook provides instrumentation points for the verification harness.
+package verifhook
+
+import "sync/atomic"
+
+// HandlerFunc is called at every instrumentation point; a non-nil error is returned to the caller
+// of Point as if the instrumented operation had failed.
+type HandlerFunc func(name string, key []byte) error
+
+var handler atomic.Value
+
+// SetHandler installs (or, with nil, removes) the handler.
+func SetHandler(h HandlerFunc) {
+	handler.Store(&h)
+}
+
+// Point calls the installed handler, if any.
+func Point(name string, key []byte) error {
+	h, _ := handler.Load().(*HandlerFunc)
+	if h == nil || *h == nil {
+		return nil
+	}
+
+	return (*h)(name, key)
+}
